@@ -7,12 +7,14 @@ import (
 	"errors"
 	"fmt"
 	"io"
+	"mellium.im/xmpp/internal/verifhook"
 	"os"
 	"regexp"
 	"runtime"
 	"sort"
 	"strings"
 	"sync"
+	"sync/atomic"
 	"time"
 
 	"mellium.im/xmlstream"
@@ -84,6 +86,8 @@ type env struct {
 	lst2          *ibb.Listener // a second listener nobody accepts from
 	p2            *sess.Pair
 	lst2Closing   bool
+	opts          envOpts
+	hookFired     atomic.Bool
 	ibbAck        string          // how the peer treats the application's IBB <close/> / <data/> requests (under mu)
 	histClose     int             // close the tracked-history iterator after this many results (<0: never)
 	histSent      int             // tracked-history results the peer has sent (under mu)
@@ -147,7 +151,22 @@ func drainTokens(r xml.TokenReader) {
 var fixedTime = time.Date(2006, 12, 19, 17, 58, 35, 0, time.FixedZone("", -6*3600))
 
 // newEnv builds the session and starts Serve, the acceptor and the peer loop.
-func newEnv(c *core.Case) (*env, error) {
+// envOpts configure the application around the session.
+type envOpts struct {
+	// nilCallbacks leaves every callback that the library documents as optional
+	// (or guards with a nil check) unset: muc.Client.HandleInvite and
+	// HandleUserPresence, the function of muc.HandleInvite, receipts.Handler's
+	// Unhandled, the inner handler of history.NewHandler, all four blocklist
+	// callbacks, xtime's TimeFunc and bin's Get.
+	nilCallbacks bool
+	// hookCancel names a yield point of the library (serve.lookup,
+	// serve.handoff, req.wait, req.done): the first time a request of this
+	// case's application calls reaches it, that call's context is cancelled
+	// from inside the yield.
+	hookCancel string
+}
+
+func newEnv(c *core.Case, o envOpts) (*env, error) {
 	p, err := sess.NewPair(sess.Opts{})
 	if err != nil {
 		return nil, err
@@ -156,6 +175,11 @@ func newEnv(c *core.Case) (*env, error) {
 		histClose: -1, closeEarly: -1, obs: map[string]int{}, acts: map[string]*action{}, actionGIDs: map[string]bool{}, libIDs: map[string]string{}, fixedIDs: map[string]bool{}}
 	e.ctx, e.cancel = context.WithCancel(context.Background())
 
+	e.opts = o
+	verifhook.Set(nil)
+	if o.hookCancel != "" {
+		verifhook.Set(e.yield)
+	}
 	e.ibbH = &ibb.Handler{}
 	e.rcpt = &receipts.Handler{Unhandled: func(string) { e.note("receipts_unhandled") }}
 	e.hist = history.NewHandler(mux.MessageHandlerFunc(func(m stanza.Message, t xmlstream.TokenReadEncoder) error {
@@ -167,12 +191,40 @@ func newEnv(c *core.Case) (*env, error) {
 		HandleInvite:       func(muc.Invitation) { e.note("muc_invite") },
 		HandleUserPresence: func(stanza.Presence, muc.Item) { e.note("muc_user_presence") },
 	}
+	directInvite := func(muc.Invitation) { e.note("muc_direct_invite") }
+	blockH := blocklist.Handler{
+		Block:      func(blocklist.Item) { e.note("block") },
+		Unblock:    func(jid.JID) { e.note("unblock") },
+		UnblockAll: func() { e.note("unblock_all") },
+		List: func(c chan<- jid.JID) {
+			e.note("block_list")
+			c <- jid.MustParse("romeo@montague.net")
+			c <- jid.MustParse("iago@shakespeare.lit")
+		},
+	}
+	timeH := xtime.Handler{TimeFunc: func() time.Time { e.note("time"); return fixedTime }}
+	binH := bin.Handler{Get: func(cid string) (*bin.Data, error) {
+		e.note("bob")
+		if strings.HasPrefix(cid, "sha1+") {
+			return &bin.Data{CID: cid, Type: "text/plain", Data: []byte("hello"), MaxAge: time.Hour}, nil
+		}
+		return nil, stanza.Error{Type: stanza.Cancel, Condition: stanza.ItemNotFound}
+	}}
+	if o.nilCallbacks {
+		e.rcpt = &receipts.Handler{}
+		e.hist = history.NewHandler(nil)
+		e.mucC = &muc.Client{}
+		directInvite = nil
+		blockH = blocklist.Handler{}
+		timeH = xtime.Handler{}
+		binH = bin.Handler{}
+	}
 	m := mux.New(nsClient,
 		ibb.Handle(e.ibbH),
 		history.Handle(e.hist),
 		receipts.Handle(e.rcpt),
 		muc.HandleClient(e.mucC),
-		muc.HandleInvite(func(muc.Invitation) { e.note("muc_direct_invite") }),
+		muc.HandleInvite(directInvite),
 		disco.Handle(),
 		disco.HandleCaps(func(stanza.Presence, disco.Caps) { e.note("caps") }),
 		roster.Handle(roster.Handler{Push: func(ver string, item roster.Item) error {
@@ -182,31 +234,16 @@ func newEnv(c *core.Case) (*env, error) {
 			}
 			return nil
 		}}),
-		blocklist.Handle(blocklist.Handler{
-			Block:      func(blocklist.Item) { e.note("block") },
-			Unblock:    func(jid.JID) { e.note("unblock") },
-			UnblockAll: func() { e.note("unblock_all") },
-			List: func(c chan<- jid.JID) {
-				e.note("block_list")
-				c <- jid.MustParse("romeo@montague.net")
-				c <- jid.MustParse("iago@shakespeare.lit")
-			},
-		}),
+		blocklist.Handle(blockH),
 		carbons.Handle(carbons.Handler{F: func(m stanza.Message, sent bool, inner xml.TokenReader) error {
 			e.note("carbons")
 			drainTokens(inner)
 			return nil
 		}}),
-		xtime.Handle(xtime.Handler{TimeFunc: func() time.Time { e.note("time"); return fixedTime }}),
+		xtime.Handle(timeH),
 		version.Handle(version.Query{Name: "verif", Version: "1", OS: "none"}),
 		ping.Handle(),
-		bin.Handle(bin.Handler{Get: func(cid string) (*bin.Data, error) {
-			e.note("bob")
-			if strings.HasPrefix(cid, "sha1+") {
-				return &bin.Data{CID: cid, Type: "text/plain", Data: []byte("hello"), MaxAge: time.Hour}, nil
-			}
-			return nil, stanza.Error{Type: stanza.Cancel, Condition: stanza.ItemNotFound}
-		}}),
+		bin.Handle(binH),
 	)
 
 	// cooperative acceptor: accept every incoming IBB stream and drain it
@@ -634,6 +671,40 @@ func (e *env) more(n int) bool {
 	return true
 }
 
+// yield is the library's yield-point callback while a case with hookCancel
+// runs.  It is called on the library's goroutine (the serve loop for serve.*,
+// the requester for req.*) and cancels, once, the context of the application
+// call the request belongs to - exactly there, not "around" there.
+func (e *env) yield(point, key string) {
+	if point != e.opts.hookCancel || e.hookFired.Load() {
+		return
+	}
+	e.mu.Lock()
+	var target *action
+	for _, a := range e.actList {
+		if a.detached || a.cancel == nil {
+			continue
+		}
+		if strings.HasPrefix(a.name, "helper:") || (a.reqID != "" && a.reqID == key) {
+			target = a
+		}
+	}
+	e.mu.Unlock()
+	if target == nil || !e.hookFired.CompareAndSwap(false, true) {
+		return
+	}
+	target.cancel()
+	// (counted by the case's own goroutine at the end: this one may belong to
+	// the library and outlive the case)
+}
+
+// countHook records whether the yield-point cancellation of this case fired.
+func (e *env) countHook() {
+	if e.opts.hookCancel != "" && e.hookFired.Load() {
+		e.c.Count("hook_cancel_fired:"+e.opts.hookCancel, 1)
+	}
+}
+
 // settle gives a call whose reply has been processed a moment to return.
 func (e *env) settle(a *action) {
 	select {
@@ -657,6 +728,7 @@ func (a *action) finished() bool {
 // the stall rule, cancels the application's context, lets every application
 // goroutine end and tears the transports down.
 func (e *env) finish(closeTag bool) {
+	defer verifhook.Set(nil)
 	if closeTag {
 		e.peerWrite("</stream:stream>")
 	}
